@@ -82,7 +82,9 @@ def gen_pattern(rng, max_nodes=5):
         if r < 0.78:
             if shared_leaf and rng.random() < 0.3:
                 return copy.deepcopy(rng.choice(shared_leaf))
-            k = ["K", next(ids), rng.choice([0, 1, 1, 2, [1, 2], [1], []])]
+            k = ["K", next(ids), rng.choice([0, 1, 1, 2, 1000, [1, 2], [1], [], [1000, 0]])]
+            if rng.random() < 0.15:
+                k += rng.choice([[1e-2, 1e-8], [1e-5, 1e-3], [1e-8, 1e-5], [0.0, 0.0]])
             shared_leaf.append(k)
             return copy.deepcopy(k)
         if r < 0.82:
@@ -197,10 +199,21 @@ def instantiate(p, rng, fidelity=0.93):
             return rng.choice(pool)
         return leaf()
 
+    def near(x):
+        # a value within the default tolerances (rel 1e-5 / abs 1e-8) but outside swapped ones for large x,
+        # and for 0 a value outside the default abs_tol but inside 1e-5
+        return x + x * 1e-6 if x != 0 else 5e-6
+
     def const_for(c):
         v = next(vids)
         leaves.append(v)
         r = rng.random()
+        if rng.random() < 0.15:
+            if isinstance(c, list):
+                consts.append([v, [len(c)], [near(x) if i == 0 else x for i, x in enumerate(c)]])
+            else:
+                consts.append([v, [], [near(c)]])
+            return v
         if isinstance(c, list):
             shape, data = [len(c)], list(c)
             if r > fidelity:
@@ -546,3 +559,25 @@ def extend_graph(g, rng):
     used = {i for n in g["nodes"] for i in n["inputs"]}
     g["outputs"] = [o for n in g["nodes"] for o in n["outputs"] if o not in used]
     return g
+
+
+def tolerance_cases():
+    """Constant patterns on commutative operators against constants that separate the default tolerances
+    (rel 1e-5, abs 1e-8) from other ones, reached through the written and through the swapped operand order"""
+    out = []
+    x = ["V", 1, "x", False, None]
+    for op in ("Mul", "Add"):
+        for v, hosts in ((1000, [1000, 1000.001, 1001]), (0, [0, 5e-6, 0.02])):
+            for tol in (None, [1e-2, 1e-8], [1e-8, 1e-5]):
+                k = ["K", 2, v] + (tol or [])
+                for pins in ([x, k], [k, x]):
+                    p = {"cond": True, "inputs": ["x"],
+                         "nodes": [{"dom": ["e", ""], "op": ["e", op], "aoa": None, "aoi": None, "check": None,
+                                    "inputs": copy.deepcopy(pins), "attrs": [], "outputs": [None]}],
+                         "outputs": [["O", 0, 0]]}
+                    for h in hosts:
+                        for gins in ([0, 1], [1, 0]):
+                            g = {"nodes": [{"dom": "", "op": op, "ov": "", "inputs": gins, "attrs": [], "outputs": [2]}],
+                                 "outputs": [2], "consts": [[1, [], [h]]], "foreign": [], "foreign_kind": "free", "ext": []}
+                            out.append({"pattern": p, "graph": g, "root": 0, "rm": False, "commute": True})
+    return out
